@@ -176,6 +176,86 @@ fn cfg_std_any() -> proptest::strategy::BoxedStrategy<CfgSpec> {
         .boxed()
 }
 
+/// Enumerated: (nearly) empty content inside prefixed blocks at the narrowest widths - the places
+/// where a block is laid out at width zero.
+#[derive(Clone, Debug, serde::Serialize, serde::Deserialize, PartialEq, Eq, Hash)]
+pub struct TinyCase {
+    pub html: String,
+    pub width: usize,
+    pub deco: u8,
+}
+
+fn tiny_items() -> Vec<TinyCase> {
+    let contents: &[&str] = &[
+        "", " ", "a", "<p></p>", "<p>a</p>", "<br>", "<hr>", "<img src=\"x\">", "<pre></pre>", "<pre> </pre>", "<span></span>",
+        "<table></table>", "<table><tr></tr></table>", "<table><tr><td></td></tr></table>", "<table><tr><td><span></span></td></tr></table>",
+        "<table><tr><td> </td></tr></table>", "<table><tr><td></td><td></td></tr></table>", "<table><tr><td>a</td></tr></table>",
+        "<ul></ul>", "<ul><li></li></ul>", "<ol><li></li></ol>", "<dl><dd></dd></dl>", "<blockquote></blockquote>", "<h1></h1>",
+        "<a href=\"u\"></a>", "<sup></sup>", "\u{4e00}",
+    ];
+    let outers: &[(&str, &str)] = &[
+        ("", ""),
+        ("<ul><li>", "</li></ul>"),
+        ("<ol><li>", "</li></ol>"),
+        ("<ol start=\"99\"><li>", "</li></ol>"),
+        ("<blockquote>", "</blockquote>"),
+        ("<dl><dd>", "</dd></dl>"),
+        ("<dl><dt>", "</dt></dl>"),
+        ("<h1>", "</h1>"),
+        ("<h3>", "</h3>"),
+        ("<ul><li><blockquote>", "</blockquote></li></ul>"),
+        ("<table><tr><td><ul><li>", "</li></ul></td></tr></table>"),
+        ("<table><tr><td>", "</td><td>b</td></tr></table>"),
+        ("<div>", "</div>"),
+    ];
+    let mut v = vec![];
+    for c in contents {
+        for (o, e) in outers {
+            for width in 0..=5usize {
+                for deco in 0..3u8 {
+                    v.push(TinyCase { html: format!("{}{}{}", o, c, e), width, deco });
+                }
+            }
+        }
+    }
+    v
+}
+
+pub fn check_tiny(case: &TinyCase, st: &mut Stats) -> Result<(), String> {
+    let base = match case.deco % 3 {
+        0 => CfgSpec::plain(),
+        1 => CfgSpec::rich(),
+        _ => CfgSpec::trivial(),
+    };
+    let mut over = base.clone();
+    over.overflow = true;
+    let w = case.width;
+    let r = render(&base, case.html.as_bytes(), w);
+    let ro = render(&over, case.html.as_bytes(), w);
+    for x in [&r, &ro] {
+        if let Some(b) = x.bad() {
+            return Err(format!("{} (w={})\nhtml={}", b, w, case.html));
+        }
+    }
+    if w == 0 {
+        if !r.is_narrow() || !ro.is_narrow() {
+            return Err(format!("width 0 does not give TooNarrow: {:?} / with overflow {:?}\nhtml={}", r.kind(), ro.kind(), case.html));
+        }
+        return Ok(());
+    }
+    if !ro.is_ok() {
+        return Err(format!("allow_width_overflow still {:?} at width {}\nhtml={}", ro.kind(), w, case.html));
+    }
+    if r.is_ok() && r != ro {
+        return Err(format!("allow_width_overflow changed a successful rendering (w={})\n without={:?}\n with   ={:?}\nhtml={}", w, r.as_ok(), ro.as_ok(), case.html));
+    }
+    st.class(r.kind());
+    if !r.is_ok() {
+        st.nontrivial(case);
+    }
+    Ok(())
+}
+
 pub fn property() -> Property {
     let g = G::default().with_digit_sup();
     let g2 = G::default().with_digit_sup();
@@ -187,6 +267,7 @@ pub fn property() -> Property {
         assumptions: vec!["prefix widths of the standard decorators (ul/quote/dd 2, heading n+1, ol widest marker)", "width measured as min(per-char sum, string width)"],
         hang_is_violation: false,
         subs: vec![
+            crate::engine::EnumSub::new("tiny", true, |_| tiny_items(), check_tiny).boxed(),
             PropSub::new("relations", 24_000, 240_000, move || doc_case(g.clone(), 0..=60, cfg_any(), false), check_relations).with_validity(|c| c.doc.valid()).boxed(),
             PropSub::new("relations_mutated", 12_000, 120_000, move || doc_case(g2.clone(), 0..=60, cfg_any(), true), check_relations).with_validity(|c| c.doc.valid()).boxed(),
             PropSub::new("bound", 24_000, 240_000, move || doc_case(g3.clone(), 1..=40, cfg_std_any(), false), check_bound).with_validity(|c| c.doc.valid()).boxed(),
